@@ -383,12 +383,54 @@ def wrapper_laws(col: common.Collector) -> None:
                                   wit)
 
 
+def turnover_laws(col: common.Collector, rounds: int = 150) -> None:
+    """Equality must not depend on the HISTORY of object identities: compare, discard,
+    build new objects (which the allocator places at the freed addresses), compare again.
+    A verdict memoised under id() outlives the objects it was computed for."""
+    import gc
+
+    import numpy as np
+    import pytato as pt
+    from pytato.function import trace_call
+    x = pt.make_placeholder("x", (3,), np.float64)
+
+    def mk(k: float) -> Any:
+        def f(a: Any) -> Any:
+            return k * a + 1
+        return trace_call(f, x)
+    for i in range(rounds):
+        col.count("mon.turnover_laws")
+        a, b = mk(2.0), mk(5.0 + i)
+        first = a == b
+        del b
+        gc.collect()
+        c, d = mk(2.0), mk(7.0 + i)
+        wit = {"round": i}
+        if first:
+            col.violation("C04:unequal-functions-compare-equal", "calls of x->2x+1 and "
+                          "x->kx+1 (k != 2) compare equal", wit)
+            break
+        if not (a == c) or not (c == a) or hash(a) != hash(c):
+            col.violation("C04:eq-depends-on-identity-history",
+                          "a call of a rebuilt, structurally identical function definition "
+                          "compares unequal after other objects were compared and discarded",
+                          wit)
+            break
+        if a == d or c == d:
+            col.violation("C04:eq-depends-on-identity-history",
+                          "calls of different function definitions compare equal after other "
+                          "objects were compared and discarded", wit)
+            break
+        del a, c, d
+
+
 def run_shard(shard: dict[str, Any], col: common.Collector) -> None:
     pool: list[Any] = []
     built = []
     if shard.get("idx", 0) == 0:
         constant_pairs(col)
         wrapper_laws(col)
+        turnover_laws(col)
     for desc in shard["descs"]:
         try:
             with common.time_limit(120):
